@@ -6,13 +6,21 @@ cd "$(dirname "$0")"
 mkdir -p .run evidence replays
 /venv/bin/python tools/extract.py
 TARGETS=$(python3 - <<'PY'
-import json
+import json, re
 m = json.load(open("MANIFEST.json"))
 t = []
 for c in m["checks"]:
     p = c["property_id"]
-    t += [f"DmrVerif.Props.{p}", f"drv_{p.lower()}"]
-print(" ".join(t))
+    mods = [p]
+    try:
+        src = open(f"harness/props/{p.lower()}.py").read()
+        mm = re.search(r"^MODULES\s*=\s*\[([^\]]*)\]", src, re.M)
+        if mm:
+            mods = re.findall(r"[\"']([A-Za-z0-9_]+)[\"']", mm.group(1)) or [p]
+    except OSError:
+        pass
+    t += [f"DmrVerif.Props.{x}" for x in mods] + [f"drv_{p.lower()}"]
+print(" ".join(dict.fromkeys(t)))
 PY
 )
 cd lean
